@@ -156,6 +156,11 @@ func newLibLimits(r *rand.Rand) LibLimits {
 	}
 	if maybe(r) {
 		l.Hi = 60 + r.Intn(141)
+	} else {
+		// Hi == 0 is the state InitDefaults turns into 100; behind a pointer
+		// without a setting InitDefaults does not run, so it has to pass
+		// Validate as it is
+		l.Lo = 0
 	}
 	if maybe(r) {
 		for i, n := 0, 1+r.Intn(3); i < n; i++ {
